@@ -593,7 +593,7 @@ def replay(trace, pristine=None):
 
 from histsim.c10 import pristine_handler as PRISTINE_HANDLER  # noqa: E402,F401
 
-TIERS = {"quick": {"runs": 1600, "guard": 180}, "thorough": {"runs": 16000, "guard": 600}}
+TIERS = {"quick": {"runs": 1600, "guard": 180}, "thorough": {"runs": 24000, "guard": 600}}
 
 RULE = (
     "One case = one seeded history: a world of 2-10 clients (detectors and scorers, sharing scorer instances "
